@@ -640,7 +640,7 @@ def st_int_segs(dtype, tier, wide=False, small_only=False, allow_short=True):
     general = st.lists(seg, min_size=1, max_size=maxsegs)
     if not allow_short:
         return general
-    return _weighted([(1, st.just([])), (2, elem.map(lambda v: [["lit", [v]]])), (27, general)])
+    return _weighted([(2, st.just([])), (3, elem.map(lambda v: [["lit", [v]]])), (25, general)])
 
 
 def st_int_chain(final_bytes=True, min_len=1):
@@ -1378,11 +1378,12 @@ def st_compress_float_segs(dtype, tier, allow_nonfinite):
 def st_compress_int_segs(dtype, tier):
     lo, hi = RANGE[CAP[dtype]]
     lo, hi = max(lo, RANGE[dtype][0]), min(hi, RANGE[dtype][1])
-    big = 150 if tier == "quick" else 1500
+    big = 300 if tier == "quick" else 1500
     seed = st.integers(0, 2**32 - 1)
     n = st.integers(3, big)
     small_hi = min(hi, 20)
-    start = st.sampled_from([v for v in (0, 1, -5, 100, 1000, 30000, hi - big * 2, lo, -200) if lo <= v <= hi - big * 2] or [lo])
+    # large start values: a ramp inside uint8 is never worth a chain
+    start = st.sampled_from([v for v in (0, 1, -5, 1000, 30000, 10**6, 10**6, hi - big * 3, lo, -70000) if lo <= v <= hi - big * 3] or [lo])
     seg = st.one_of(
         st.tuples(start, st.sampled_from([1, 1, 2, 3]), n).map(lambda t: ["ramp", t[0], t[1], t[2]]),
         st.tuples(st.integers(max(lo, -3), small_hi), n).map(lambda t: ["run", t[0], t[1]]),
@@ -1422,7 +1423,7 @@ def st_compress_column(tier, name, allow_wide_int=True):
                 col["long"] = True
         elif kind == "float":
             dtype = draw(st.sampled_from(FLOAT_TYPES))
-            col.update(dtype=dtype, segs=draw(st_compress_float_segs(dtype, tier, draw(st.integers(0, 4)) == 0)))
+            col.update(dtype=dtype, segs=draw(st_compress_float_segs(dtype, tier, draw(st.integers(0, 2)) == 0)))
         else:
             col.update(dtype="U", segs=draw(st_string_segs(tier)))
         return col
